@@ -3,7 +3,9 @@ import re, zlib
 
 ID = 'C14'
 PROFILES = ['debug']
-THEOREMS = ['C14_offsets_refuted', 'C14_duplicate_refuted']
+THEOREMS = ['C14_extract', 'C14_binds', 'C14_binds_only', 'C14_rejects_order', 'C14_rejects_pairs', 'C14_rejects_header',
+            'C14_rejects_first', 'C14_rejects_overrun', 'C14_rejects_duplicate', 'C14_ctx_monotone', 'C14_offsets_witness',
+            'C14_duplicate_witness']
 KIDS = ['C14-offsets-unused', 'C14-duplicate-overwrites']
 RULE = ('object streams of 1..12 objects of every value kind (integers, reals, names, strings, hex strings, booleans, null, '
         'references, nested arrays and dictionaries) x white-space / comment choices between header numbers and before '
@@ -363,7 +365,7 @@ def cases(tier, rng):
         return sorted(set([(i, 0) for i in ids] + list(ctx) + [(ids[0], 1), (999, 0)]))
 
     # legal streams: every value kind, white space, gaps
-    reps = 2500 if tier == 'thorough' else 400
+    reps = 12000 if tier == 'thorough' else 1500
     for r in range(reps):
         n = rng.randrange(1, 13)
         ids = rng.sample(range(1, 60), n)
@@ -384,7 +386,7 @@ def cases(tier, rng):
     # the design witness: header "5 0 6 6", data "11 22 33"
     out.append(os_case({'Type': oname('ObjStm'), 'N': 'i2', 'First': 'i8'}, b'5 0 6 6 11 22 33', {}, [(5, 0), (6, 0)]))
     # corruptions of a legal stream
-    n_c = 300 if tier == 'thorough' else 60
+    n_c = 1500 if tier == 'thorough' else 150
     for r in range(n_c):
         n = rng.randrange(2, 6)
         ids = rng.sample(range(1, 40), n)
@@ -455,7 +457,7 @@ def cases(tier, rng):
                     d, c = build_stream(rng, [5, 6], [v1, v2], [g, b''], None, None, [0, sh])
                     out.append(os_case(d, c, {}, [(5, 0), (6, 0)]))
     # FlateDecode
-    nf = 150 if tier == 'thorough' else 15
+    nf = 1000 if tier == 'thorough' else 40
     for _ in range(nf):
         n = rng.randrange(1, 8)
         ids = rng.sample(range(1, 60), n)
@@ -466,6 +468,14 @@ def cases(tier, rng):
     return out
 
 
-LEVEL_TEXT = ''
-LEVEL_NOTE = ''
-TECHNIQUE = ''
+LEVEL_TEXT = ('Coq theorems: for every header of (identifier, offset) pairs in any legal spelling, every data section and every '
+              'context, if the object parser reads a value at each declared offset, no value runs past the next declared offset and '
+              'the identifiers are new, extraction returns exactly these values in header order under (id, 0) and defines them — '
+              'with arbitrary bytes in the gaps; non-increasing offsets, fewer than /N pairs, /First at or beyond the data, an '
+              'overrun and an already defined identifier are rejected; an existing definition is never changed, whatever the input '
+              '(refuted on the pinned code in two ways — offsets unused, duplicate overwrites — both repaired: 681cda4, f218988; '
+              'witnesses kept in corpus/c14.txt and as theorems about the repaired code)')
+LEVEL_NOTE = ('trusted: Coq kernel, hand transcription coq/Model/ObjStm.v (validated by the correspondence run) over coq/Model/Obj.v and '
+              'Prim.v, extraction + ocaml/drv.ml, harness/src/bin/c14.rs; the value at an offset is defined through the object parser '
+              'model (C02/C16); filter decoding is C06/C07 (decoder output supplied by the case)')
+TECHNIQUE = 'Coq proofs by induction over header pairs and members (prefix lemmas, context invariant) + differential correspondence'
